@@ -3,6 +3,8 @@
 from __future__ import annotations
 
 import ast
+
+import numpy as np
 from itertools import product
 
 from .. import AnalysisError
@@ -312,3 +314,92 @@ def run(ctx):
 
     ctx.rule("R6", "the shape validator compares every non-None expected size, 0 included", "with zero atoms a non-empty per-atom array is accepted: the per-atom arrays disagree on the number of atoms")
     check_validate_shape(ctx, "R6")
+    ctx.rule("R7", "charge = sum of the core charges - number of electrons, as values (accessors evaluated on symbols)", "a sign slip in a setter: assigning the charge stores an electron count that gives back another charge")
+    check_charge_arithmetic(ctx, "R7")
+    check_natom_value(ctx, "R1")
+
+
+def check_charge_arithmetic(ctx, rid):
+    """charge = sum(core charges) - electrons, as *values*: the property setters / getters of IOData evaluated on
+    symbolic core charges z, charge q and electron count n (the typestate analysis above decides which of the three is
+    stored when; this decides that what is stored has the right value and sign)."""
+    from ..accessors import AccessorEval, Raised, Rec
+    from ..symarr import NotSymbolic, Sym, sym_array
+
+    prog = ctx.prog
+    ci = prog.cls("iodata.iodata.IOData")
+    z = sym_array("z", (2,))
+    zsum = z[0] + z[1]
+    q, n = Sym.atom("q"), Sym.atom("n")
+
+    def fresh(**kw):
+        f = {name: None for name in ci.fields}
+        f.update(kw)
+        return Rec(ci, **f)
+
+    def eq(a, b):
+        return a is not None and not isinstance(a, np.ndarray) and Sym.const(a) == Sym.const(b)
+
+    cases = []
+    try:
+        ev = AccessorEval(prog, ci, limit=4000)
+        r = fresh(_atcorenums=z.copy())
+        ev.set(r, "charge", q)
+        cases.append(("core charges known, charge := q", eq(ev.get(r, "nelec"), zsum - q) and eq(ev.get(r, "charge"), q), f"nelec = {ev.get(r, 'nelec')!r}, charge = {ev.get(r, 'charge')!r}; expected nelec = z0 + z1 - q, charge = q"))
+        r = fresh(_atcorenums=z.copy())
+        ev.set(r, "nelec", n)
+        cases.append(("core charges known, nelec := n", eq(ev.get(r, "charge"), zsum - n) and eq(ev.get(r, "nelec"), n), f"charge = {ev.get(r, 'charge')!r}; expected z0 + z1 - n"))
+        r = fresh()
+        ev.set(r, "charge", q)
+        ev.set(r, "atcorenums", z.copy())
+        cases.append(("charge := q, then core charges := z", eq(ev.get(r, "nelec"), zsum - q) and eq(ev.get(r, "charge"), q), f"nelec = {ev.get(r, 'nelec')!r}, charge = {ev.get(r, 'charge')!r}; expected nelec = z0 + z1 - q, charge = q"))
+        r = fresh(_atcorenums=z.copy())
+        ev.set(r, "nelec", n)
+        ev.set(r, "atcorenums", None)
+        cases.append(("nelec := n with core charges, then core charges := None", eq(ev.get(r, "charge"), zsum - n) and eq(ev.get(r, "nelec"), n), f"charge = {ev.get(r, 'charge')!r}, nelec = {ev.get(r, 'nelec')!r}; expected the charge z0 + z1 - n to be kept"))
+        r = fresh(atnums=np.array([8, 1]))
+        ev.set(r, "charge", q)
+        cases.append(("only atomic numbers [8, 1] known, charge := q", eq(ev.get(r, "nelec"), Sym.const(9) - q), f"nelec = {ev.get(r, 'nelec')!r}; expected 9 - q (core charges default to the atomic numbers)"))
+    except Raised as exc:
+        ctx.violate(rid, f"charge / nelec / atcorenums accessors raise {exc.args[0]} on a legal assignment sequence", relpath=ci.module.relpath, function=ci.qualname, node=ci.node, construct="charge arithmetic raises")
+        return
+    except NotSymbolic as exc:
+        raise AnalysisError(f"IOData charge accessors are outside the evaluation whitelist: {exc}") from exc
+    bad = [(label, why) for label, ok_, why in cases if not ok_]
+    if bad:
+        label, why = bad[0]
+        g = ci.setters.get("charge")
+        ctx.violate(rid, f"IOData, {label}: {why}", g, g.node if g is not None else ci.node, construct=f"charge arithmetic: {label}"[:150])
+    else:
+        ctx.ok(rid, f"IOData: {len(cases)} assignment sequences on symbolic z, q, n give charge = sum(z) - nelec with the right values and signs", f"{ci.module.relpath}:{ci.node.lineno}")
+
+
+def check_natom_value(ctx, rid):
+    """`natom` evaluated on objects that hold exactly one per-atom array (5 atoms): the count is that array's number of
+    rows, whichever array it is; with none it is None."""
+    from ..accessors import AccessorEval, Raised, Rec
+    from ..symarr import NotSymbolic
+
+    prog = ctx.prog
+    ci = prog.cls("iodata.iodata.IOData")
+    shapes = {"atcoords": (5, 3), "_atcorenums": (5,), "atgradient": (5, 3), "atfrozen": (5,), "atmasses": (5,), "atnums": (5,)}
+    bad = None
+    try:
+        for name, shape in shapes.items():
+            f = {k: None for k in ci.fields}
+            f[name] = np.zeros(shape)
+            got = AccessorEval(prog, ci).get(Rec(ci, **f), "natom")
+            if got != 5:
+                bad = bad or f"with only `{name.lstrip('_')}` of shape {shape} set, natom = {got!r} (expected 5)"
+        got = AccessorEval(prog, ci).get(Rec(ci, **{k: None for k in ci.fields}), "natom")
+        if got is not None:
+            bad = bad or f"without any per-atom array natom = {got!r} (expected None)"
+    except Raised as exc:
+        bad = f"natom raises {exc.args[0]}"
+    except NotSymbolic as exc:
+        raise AnalysisError(f"IOData.natom is outside the evaluation whitelist: {exc}") from exc
+    g = ci.getters["natom"]
+    if bad:
+        ctx.violate(rid, f"IOData.natom: {bad}", g, g.node, construct=f"natom value: {bad}"[:150])
+    else:
+        ctx.ok(rid, f"IOData.natom evaluated on {len(shapes)} single-array objects of 5 atoms and on an empty one", g.where)
